@@ -77,6 +77,10 @@ def _one(m):
             hit = [o for o in viol if o.rule == m['expect'] or o.rule.startswith(m['expect'])]
             if hit:
                 return {'id': m['id'], 'status': 'fired', 'rule': hit[0].rule, 'where': str(hit[0].loc)[:160]}
+            if viol:
+                # reported, but by another rule of the property's check than the one the mutant was written for
+                # (typically the fold of the clause, after the shape rule became a soft one)
+                return {'id': m['id'], 'status': 'fired', 'rule': viol[0].rule, 'expected_rule': m['expect'], 'where': str(viol[0].loc)[:160]}
             return {'id': m['id'], 'status': 'MISSED', 'rules_fired': rules}
         if viol:
             return {'id': m['id'], 'status': 'FALSE-ALARM', 'rules_fired': rules, 'where': str(viol[0].loc)[:160], 'msg': viol[0].msg[:200]}
@@ -106,6 +110,7 @@ def run_for(prop, seed=0, jobs=None):
     summary = {
         'mutants': len(ms),
         'fired': sum(1 for r in results if r['status'] == 'fired'),
+        'fired_by_another_rule_than_written_for': sum(1 for r in results if r['status'] == 'fired' and 'expected_rule' in r),
         'silent_twins_ok': sum(1 for r in results if r['status'] == 'silent'),
         'skipped': [r for r in results if r['status'].startswith('skip')],
         'problems': bad,
